@@ -98,6 +98,36 @@ extern "C" void h_arena(void) {
    (void)pool0;
    vp_done();
 }
+// arena arithmetic, one step, request size symbolic over 0..2^21: every branch of allocate() is decided by the solver.
+// The cursor is placed at a picked position (start, middle, the last three granules, the very end); the request size stays a term.
+extern "C" void h_arena_step(void) {
+   util::string::arena* ar = new util::string::arena;
+   constexpr std::ptrdiff_t bufsz = util::string::arena::bufsz;
+   static const std::ptrdiff_t positions[] = { 0, 1, 4097, bufsz - 4100, bufsz - 3, bufsz - 2, bufsz - 1, bufsz };
+   std::ptrdiff_t k = positions[vp_pick(8)];
+   auto* pool0 = ar->mem; util::string* cursor0 = pool0->storage + k;
+   ar->next_header = cursor0;
+   std::ptrdiff_t n = (std::ptrdiff_t)(nondet_ulong() & 0x1fffff);             // 0 .. 2 MiB, symbolic
+   util::string* h = ar->allocate(n);
+   uintptr_t hb = (uintptr_t)h, need = 8 + (uintptr_t)n;                        // length field + n characters
+   vp_check_range(h, need);                                                     // the block handed out can hold the string
+   util::string* cursor1 = ar->next_header; auto* pool1 = ar->mem;
+   uintptr_t lo1 = (uintptr_t)pool1->storage, hi1 = (uintptr_t)(pool1->storage + bufsz);
+   vp_assert((uintptr_t)cursor1 >= lo1 && (uintptr_t)cursor1 <= hi1, 50);      // the cursor stays inside the current pool
+   vp_assert(((uintptr_t)cursor1 - lo1) % 16 == 0, 51);
+   if (pool1 == pool0 && hb >= lo1 && hb < hi1) {
+      // served from the current pool: starts at the old cursor, ends before the new one, nothing before the old cursor is touched
+      vp_assert(h == cursor0 && hb + need <= (uintptr_t)cursor1 && (uintptr_t)cursor1 >= (uintptr_t)cursor0, 52);
+   } else if (pool1 != pool0) {
+      // a fresh pool was chained: the old one stays reachable (its strings are live), the string ends before the new cursor
+      vp_assert(pool1->previous == pool0 && h == pool1->storage && hb + need <= (uintptr_t)cursor1, 53);
+   } else {
+      // oversize block of its own, linked behind the current pool so that the destructor frees it; cursor untouched
+      vp_assert(pool0->previous != nullptr && h == pool0->previous->storage && cursor1 == cursor0 && n > bufsz, 54);
+   }
+   delete ar;
+   vp_done();
+}
 // oversize path: a string longer than the pool capacity (in headers) gets its own block, linked so that the destructor frees it
 extern "C" void h_oversize(void) {
    static char8_t big[70000];
